@@ -846,10 +846,16 @@ class BptkServer(Flask):
             content = request.get_json()
             if "numberSteps" in content:
                 if "settings" in content:
-                    instance.lock()
-                    for i in range(0,content["numberSteps"]):
-                        result.append(instance.run_step(settings=content["settings"], flat="flatResults" in content and content["flatResults"] == True))
-                    instance.unlock()
+                    if(not instance.try_lock()):
+                        resp = make_response('{"error": "instace is locked"}', 500)
+                        resp.headers['Content-Type'] = 'application/json'
+                        resp.headers['Access-Control-Allow-Origin'] = '*'
+                        return resp
+                    try:
+                        for i in range(0,content["numberSteps"]):
+                            result.append(instance.run_step(settings=content["settings"], flat="flatResults" in content and content["flatResults"] == True))
+                    finally:
+                        instance.unlock()
                 else:
                     resp = make_response('{"error": "expecting settings to be set"}', 500)
                     resp.headers['Content-Type'] = 'application/json'
@@ -861,7 +867,7 @@ class BptkServer(Flask):
                 resp.headers['Access-Control-Allow-Origin'] = '*'
                 return resp
         except:
-            instance.unlock()
+            pass
         if result is not None:
             resp = make_response(jsonpickle.dumps(result), 200)
         else:
@@ -903,7 +909,7 @@ class BptkServer(Flask):
                 resp.headers['Access-Control-Allow-Origin'] = '*'
                 return resp
 
-        if(instance.is_locked()):
+        if(not instance.try_lock()):
             resp = make_response('{"error": "instace is locked"}', 500)
             resp.headers['Content-Type'] = 'application/json'
             resp.headers['Access-Control-Allow-Origin'] = '*'
@@ -911,7 +917,7 @@ class BptkServer(Flask):
 
         def streamer():
             try:
-                instance.lock()
+                yield # the lock is held: the stream is advanced to this point before it is handed to the response, so that closing it at any time releases the lock
                 yield "["
                 first = True
                 while instance.progress() <= 1.0:
@@ -936,7 +942,9 @@ class BptkServer(Flask):
             if self._external_state_adapter != None:
                 self._external_state_adapter.save_instance(self._instance_manager._get_instance_state(instance_uuid))
 
-        resp = Response(streamer())
+        stream = streamer()
+        next(stream)
+        resp = Response(stream)
         resp.headers['Content-Type'] = 'application/json'
         resp.headers['Access-Control-Allow-Origin'] = '*'
         return resp
